@@ -117,7 +117,8 @@ def main():
         msub = "build" if sub == "default" else sub
         real_lli_used = use_real_lli and not flag and not (env and sub == "run")
         if real_lli_used:
-            be = str(retval % 256) if compile_ok else "0"
+            # the two-module program returns three(), the single-module one returns `retval`
+            be = (str(3) if inp == "two" else str(retval % 256)) if compile_ok else "0"
         else:
             be = "signalled" if status == "signal" else str(status)
         req = "(inv %s %s %s %s %d %s %d %d)" % (
